@@ -586,6 +586,12 @@ let handle (r : reader) : unit =
       let step = next_int r in
       let files = append_steps n128 ents e (file_bytes n128 ents) in
       out_s "OK"; out_hex (List.nth files (step - 1))
+  | "SKYR" ->
+      (* SKYR hex -> the sky-map reader up to the pixel values: depth, or the error kind *)
+      let s = bytes_of_hex (next r) in
+      (match sky_read s with
+       | SkyOk (d, _, _, _) -> out_s "OK"; out_n d
+       | SkyErr e -> out_s ("ERR " ^ ferr_name e))
   | "HIST" -> handle_hist r
   | "MSET" -> handle_mset r
   | "TEXTV" ->
